@@ -356,7 +356,31 @@ def zoo_configs():
             "Kst": {"J": 1, "Par": -1, "m0": 0.89, "g0": 0.05},
         },
     }
+    for tag, cp_trans in (("cc_off", False), ("cc_on", True)):
+        # parity-violating decays (p_break) + events of both charges: with cp_trans False the amplitude flips the
+        # helicities of the charge -1 events (allow_cc, needs data["charge_conjugation"]); with cp_trans True (default)
+        # the momenta of those events are parity-transformed by the preprocessor instead.
+        x = "f" if cp_trans else "n"  # distinct particle names per configuration
+        A, B, Cc, D, R1, R2, R3 = ("%s%s" % (n, x) for n in ("Y", "Vb", "Vc", "Pd", "Rbc", "Rbd", "Rcd"))
+        z[tag] = {
+            "order": [B, Cc, D],
+            "charges": True,
+            "bg": True,
+            "base_data": {"cp_trans": cp_trans},
+            "decay": {A: [[R1, D, {"p_break": True}], [R2, Cc, {"p_break": True}], [R3, B]],
+                      R1: [B, Cc, {"p_break": True}], R2: [B, D], R3: [Cc, D, {"p_break": True}]},
+            "particle": {
+                "$top": {A: {"J": 1, "P": -1, "spins": [-1, 1], "mass": 4.6}},
+                "$finals": {B: {"J": 1, "P": -1, "mass": 2.00698}, Cc: {"J": 1, "P": -1, "mass": 2.01028}, D: {"J": 0, "P": -1, "mass": 0.13957}},
+                R1: {"J": 1, "Par": 1, "m0": 4.16, "g0": 0.1},
+                R2: {"J": 1, "Par": 1, "m0": 2.43, "g0": 0.3},
+                R3: {"J": 1, "Par": 1, "m0": 2.42, "g0": 0.03},
+            },
+        }
     return z
+
+
+ZOO_META = ("order", "charges", "bg", "base_data")
 
 
 def build_config(cfg_dic, data_opts=None):
@@ -364,8 +388,12 @@ def build_config(cfg_dic, data_opts=None):
     import copy
     from tf_pwa.config_loader import ConfigLoader
     d = copy.deepcopy(cfg_dic)
-    order = d.pop("order")
+    order = d["order"]
+    base_data = d.get("base_data", {})
+    for k in ZOO_META:
+        d.pop(k, None)
     d.setdefault("data", {})
+    d["data"].update(copy.deepcopy(base_data))
     d["data"].setdefault("dat_order", list(order))
     if data_opts:
         d["data"].update(copy.deepcopy(data_opts))
@@ -401,6 +429,8 @@ def harvest_expressions(ctx):
     n_ev = 5
     try:
         for name, cfg in sorted(zoo_configs().items()):
+            if cfg.get("charges") and ctx.quick and not ctx.suspect:
+                continue  # same expression families as vv_s; harvested in the thorough tier
             for opts in (({}, {"align_ref": "center_mass"}) if (ctx.quick and not ctx.suspect) else ({}, {"align_ref": "center_mass"}, {"only_left_angle": True}, {"center_mass": True, "random_z": False})):
                 try:
                     c = build_config(cfg, opts)
@@ -632,6 +662,7 @@ NLL_STRATEGIES = {
     "lazy_call(nll)": ({"lazy_call": True}, "default"),
     "use_tf_function(nll)": ({"use_tf_function": True}, "default"),
     "cfit_cached": ({"model": "cfit", "bg_frac": 0.2, "cached_amp": True}, "cfit"),
+    "cfit+lazy_call": ({"model": "cfit", "bg_frac": 0.2, "lazy_call": True}, "cfit"),
 }
 NLL_BASE = {"default": {}, "cfit": {"model": "cfit", "bg_frac": 0.2}}
 
@@ -668,6 +699,17 @@ class StratEnv:
             np.savetxt(os.path.join(self.tmp, tag + "_bg_value.dat"), rng.uniform(0.5, 1.5, size=n))
             np.savetxt(os.path.join(self.tmp, tag + "_eff_value.dat"), rng.uniform(0.5, 1.5, size=n))
             np.savetxt(os.path.join(self.tmp, tag + "_weight.dat"), rng.uniform(0.5, 1.5, size=n))
+            ch = rng.choice([1.0, -1.0], size=n)
+            ch[0], ch[1] = 1.0, -1.0  # both charges always present
+            np.savetxt(os.path.join(self.tmp, tag + "_charge.dat"), ch)
+            if tag == "data":
+                self.data_charge = ch
+        n_bg = max(4, n_data // 2)
+        np.savetxt(os.path.join(self.tmp, "bg.dat"), np.stack(gen_p4(self.cfg, n_bg, seed + 900), axis=1).reshape(-1, 4))
+        np.savetxt(os.path.join(self.tmp, "bg_weight.dat"), rng.uniform(0.5, 1.5, size=n_bg))
+        np.savetxt(os.path.join(self.tmp, "bg_charge.dat"), rng.choice([1.0, -1.0], size=n_bg))
+        self.has_charges = bool(self.cfg.get("charges"))
+        self.has_bg = bool(self.cfg.get("bg"))
         self.rng = rng
         self.params = None
         self.cache = {}
@@ -677,10 +719,17 @@ class StratEnv:
         d.update(opts)
         for tag in ("data", "phsp"):  # non-trivial event weights: a strategy that loses them changes the NLL
             d[tag + "_weight"] = os.path.join(self.tmp, tag + "_weight.dat")
+        if self.has_charges:  # events of both charges, supplied the way ConfigLoader reads them
+            for tag in ("data", "phsp"):
+                d[tag + "_charge"] = os.path.join(self.tmp, tag + "_charge.dat")
         if d.get("model") == "cfit":
             for tag in ("data", "phsp"):
                 d[tag + "_bg_value"] = os.path.join(self.tmp, tag + "_bg_value.dat")
                 d[tag + "_eff_value"] = os.path.join(self.tmp, tag + "_eff_value.dat")
+        elif self.has_bg:  # a background sample subtracted with weight -bg_weight (its own weights and charges)
+            d["bg"] = [os.path.join(self.tmp, "bg.dat")]
+            d["bg_weight"] = 0.3
+            d["bg_charge"] = os.path.join(self.tmp, "bg_charge.dat")
         return d
 
     def config(self, opts):
@@ -739,7 +788,13 @@ def strategy_one(env, kind, name):
         ref = env.cache["density"]
         vals = density(env, DENSITY_STRATEGIES[name][0])
         dev = max(rel_dev(v, ref) for v in vals)
-        return dev, {"ref": ref[:4].tolist(), "got": vals[-1][:4].tolist()}
+        detail = {"ref": ref[:4].tolist(), "got": vals[-1][:4].tolist()}
+        if env.has_charges:
+            ch = env.data_charge
+            detail["per_charge"] = {"+1": max(rel_dev(v[ch > 0], ref[ch > 0]) for v in vals),
+                                    "-1": max(rel_dev(v[ch < 0], ref[ch < 0]) for v in vals)}
+            detail["charges"] = ch[:4].tolist()
+        return dev, detail
     opts, base = NLL_STRATEGIES[name]
     if base not in env.cache:
         env.cache[base] = nll_grad(env, NLL_BASE[base])
@@ -786,15 +841,26 @@ def wrapfun_probe(res):
 
 
 QUICK_SECONDARY = ("cached_amp", "cached_shape", "base_factor+cached_angle", "p4_directly", "lazy_call")
-QUICK_SKIP_PRIMARY = ("use_tf_function+no_id_cached", "lazy_call+cached_amp")
+QUICK_SKIP_PRIMARY = ("use_tf_function+no_id_cached", "lazy_call+cached_amp", "cached_amp+use_tf_function")
+QUICK_PRIMARY_NLL = ("lazy_call(nll)", "use_tf_function(nll)")  # the cached likelihood models run on cc_off in the quick tier
+# charge-conjugation structures: the strategies that build per-event tensors ahead of the amplitude call
+QUICK_CC = {
+    "cc_off": (("cached_amp", "cached_shape", "base_factor", "base_factor+cached_angle", "p4_directly", "lazy_call", "cached_amp+use_tf_function"),
+               ("cached_int", "cached_amp(nll)", "cfit_cached")),
+    "cc_on": (("cached_amp", "cached_shape", "base_factor+cached_angle", "p4_directly"), ()),
+}
 
 
 def strategy_plan(ctx):
-    """(config, kind, strategy) triples of the tier: quick = every strategy family on the richest structure (vv_s) and
-    the cheap cached / factorised / p4 / lazy strategies on the other structures; thorough = everything everywhere."""
+    """(config, kind, strategy) triples of the tier: quick = every strategy family on the richest structure (vv_s), the
+    cheap cached / factorised / p4 / lazy strategies on the other structures and the pre-cached strategies (densities
+    and likelihoods) on the charge-conjugation structures; thorough = everything everywhere."""
     plan = []
     names = sorted(zoo_configs())
     for cn in names:
+        if ctx.quick and cn in QUICK_CC:
+            plan += [(cn, "density", sn) for sn in QUICK_CC[cn][0]] + [(cn, "nll", sn) for sn in QUICK_CC[cn][1]]
+            continue
         primary = (cn == "vv_s") or not ctx.quick
         for sn, (opts, slow) in DENSITY_STRATEGIES.items():
             if not ctx.quick:
@@ -805,7 +871,8 @@ def strategy_plan(ctx):
                 plan.append((cn, "density", sn))
         if primary:
             for sn in NLL_STRATEGIES:
-                plan.append((cn, "nll", sn))
+                if not ctx.quick or sn in QUICK_PRIMARY_NLL:
+                    plan.append((cn, "nll", sn))
     return plan
 
 
@@ -815,6 +882,7 @@ def search_strategies(ctx, res):
     envs = {}
     done = []
     worst = {}
+    per_charge = {}
     t0 = time.time()
     try:
         for (cn, kind, sn) in plan:
@@ -831,6 +899,8 @@ def search_strategies(ctx, res):
                 continue
             done.append((cn, kind, sn, dev))
             worst[sn] = max(worst.get(sn, 0.0), dev)
+            if isinstance(detail, dict) and "per_charge" in detail:
+                per_charge.setdefault(cn, {})[sn] = {k: float("%.3g" % v) for k, v in detail["per_charge"].items()}
             tol = DENSITY_TOL if kind == "density" else NLL_TOL
             if not dev <= tol:
                 res.fail("strategy:%s" % sn, "strategy %s on zoo config %s: %s deviates from plain eager evaluation by %.3g (tolerance %g): %s" % (
@@ -842,6 +912,12 @@ def search_strategies(ctx, res):
     res.coverage["strategy_comparisons"] = len(done)
     res.coverage["strategy_configs"] = sorted(envs)
     res.coverage["strategy_worst_relative_deviation"] = {k: float("%.3g" % v) for k, v in sorted(worst.items())}
+    res.coverage["strategy_per_charge_residuals"] = per_charge
+    res.coverage["strategy_per_event_extras"] = {
+        "weight": "data_weight / phsp_weight files, uniform(0.5,1.5): every NLL comparison; bg sample with its own weights on cc_off / cc_on",
+        "charge_conjugation": "data_charge / phsp_charge / bg_charge files with both signs on cc_off (cp_trans False: helicity flip inside the amplitude) and cc_on (cp_trans True: parity-transformed momenta); all decays but one p_break",
+        "eff_value / bg_value": "data_* / phsp_* files, uniform(0.5,1.5): cfit vs cfit_cached",
+    }
     res.coverage["strategy_tolerances"] = {"density": DENSITY_TOL, "nll_and_gradient": NLL_TOL}
     res.coverage["strategy_wall_s"] = round(time.time() - t0, 1)
     res.samples.append({"strategy": done[0][2], "config": done[0][0], "relative_deviation": done[0][3]} if done else {"strategy": "none run"})
@@ -899,6 +975,6 @@ def replay(ctx, payload):
 
 MANIFEST = {
     "text": "Lean theorems about an executable, step-by-step model of tf_pwa/einsum.py over an arbitrary commutative semiring: (1) einsum_step_correct - whenever one call of tensor_einsum_reduce_sum (transpose to the sorted index order, reshape with 1's, broadcast product, reduce_sum) returns a tensor, for ANY number of operands, index lists, sizes and data, that tensor is the reference contraction (sum over the non-output indices of the product of entries) of its sub-expression; (2) einsum_contract_early / einsum_loop_correct - contracting a group of operands early while keeping exactly the indices needed later preserves the reference value, hence by induction over ANY contraction path the pairwise loop returns the reference contraction or declines; (3) the routine declines (never returns a tensor) on invalid expressions and when two indices of a step have the same order value, and with the strict ranking of the fixed ordered_indices such a tie is impossible for every list of double values. The model (including ordered_indices in IEEE doubles, replace_ellipsis, remove_size1, the opt_einsum path as an input) is tied to the code by exact comparison on integer-valued float64/complex128 operands over every expression the amplitude builder emits for a zoo of decay structures plus seeded random expressions, and tf_pwa.einsum.einsum is compared with numpy.einsum directly. Every data: strategy (cached_amp, cached_shape, base_factor, cached_angle, p4_directly, lazy_call, use_tf_function, jit_compile, no_id_cached, cached_int / cached_amp / cfit cached likelihoods) is compared with plain eager evaluation on the zoo (1e-10 densities, 1e-8 NLL and gradient).",
-    "note": "Proved for all inputs: the einsum step, the early-contraction identity and the path induction (for operands whose dimensions equal the index sizes; numpy-style size-1 broadcasting of an index, the ellipsis replacement and the size-1 axis removal around the loop are covered by the exact correspondence only). Validated, not proved (kind R): tf.function / XLA equals eager, the LazyCall pipeline, preprocessors, the id()-based cache switch, the cached-integral and cached-amplitude likelihoods - runtime behaviour of TensorFlow, checked on a zoo of three 3-body structures. Known findings reproduced on every run until their patches land: einsum order ties (wrong tensor, hash-seed dependent), Model_cfit_cached ignoring the efficiency in the normalisation integral, WrapFun cache key. Trusted: Lean kernel, standard axioms, the harness, opt_einsum paths as inputs.",
+    "note": "Proved for all inputs: the einsum step, the early-contraction identity and the path induction (for operands whose dimensions equal the index sizes; numpy-style size-1 broadcasting of an index, the ellipsis replacement and the size-1 axis removal around the loop are covered by the exact correspondence only). Validated, not proved (kind R): tf.function / XLA equals eager, the LazyCall pipeline, preprocessors, the id()-based cache switch, the cached-integral and cached-amplitude likelihoods - runtime behaviour of TensorFlow, checked on a zoo of five 3-body structures (spin 0, 1/2, 1, 3/2, 2; two of them with parity-violating decays and events of both charges, once with cp_trans False = helicity flip inside the amplitude and once with cp_trans True = parity-transformed momenta), with non-trivial per-event extras everywhere a strategy could drop them (event weights, background sample, charge_conjugation, eff_value / bg_value); per-charge residuals are recorded in the evidence. Known findings reproduced on every run until their patches land: einsum order ties (wrong tensor, hash-seed dependent), Model_cfit_cached ignoring the efficiency in the normalisation integral, WrapFun cache key. Trusted: Lean kernel, standard axioms, the harness, opt_einsum paths as inputs.",
     "technique": "Lean 4 proof (finite-sum algebra over a commutative semiring, induction over operand lists and contraction paths, row-major layout lemmas) + exact differential correspondence with the implementation on integer tensors + direct oracle search (numpy.einsum; eager evaluation for the strategies)",
 }
